@@ -99,6 +99,19 @@ def coq_dop(op):
     if k == 'DD': return 'RemoveDuplicates'
     raise ValueError(op)
 
+def coq_uop(op):
+    t = op.split(); k = t[0]
+    z = lambda s: '(%s)%%Z' % s
+    if k == 'A': return 'UAdd %s %s %s %s' % (t[1], t[2], z(t[3]), coq_bool(t[4]))
+    if k == 'R': return 'URemove %s %s' % (t[1], t[2])
+    if k == 'SL': return 'USelfLoops'
+    if k == 'V': return 'URemoveVertex %s' % t[1]
+    if k == 'CL': return 'UClear'
+    if k == 'RZ': return 'UResize %s' % t[1]
+    if k == 'SLB': return 'USetLabel %s %s %s %s' % (t[1], t[2], z(t[3]), coq_bool(t[4]))
+    if k == 'DD': return 'URemoveDuplicates'
+    raise ValueError(op)
+
 def coq_term_history(case, variant='repaired'):
     head, body = case.split(':', 1)
     cls, lk, n = head.split()
@@ -108,4 +121,131 @@ def coq_term_history(case, variant='repaired'):
     hs = 'false' if lk == 'none' else 'true'
     if cls == 'D':
         return 'd_trace %s %s %s [%s]' % (hs, variant, n, '; '.join(coq_dop(o) for o in ops))
+    if cls == 'U':
+        return 'u_trace_z %s %s %s [%s]' % (hs, variant, n, '; '.join(coq_uop(o) for o in ops))
+    return None
+
+
+# ---- multigraph / weighted histories ----
+def multi_history(rng, cls, maxops=30, force_p=0.0, reject_p=0.0, dd_p=0.0, sizes=(0, 1, 1, 2, 3, 3, 4, 5)):
+    und = cls == 'UM'
+    n = rng.choice(sizes); cur = n
+    mult = {}
+    key = (lambda i, j: (min(i, j), max(i, j))) if und else (lambda i, j: (i, j))
+    ops = []
+    for _ in range(rng.randint(0, maxops)):
+        if cur == 0:
+            c = rng.choice(['CL', 'SL', 'RZ', 'RZ', 'DD' if dd_p else 'CL', 'BAD' if reject_p > 0 else 'RZ'])
+            if c == 'RZ': cur += rng.randint(0, 2); ops.append('RZ %d' % cur)
+            elif c == 'BAD': ops.append(rng.choice(['A 0 0 0', 'MA 0 1 2 0', 'R 0 0', 'V 0', 'MS 0 0 1', 'MR 0 0 1']))
+            else: ops.append(c)
+            continue
+        if mult and rng.random() < 0.5:
+            i, j = rng.choice(sorted(mult))
+            if rng.random() < 0.5: i, j = j, i
+        else:
+            i = rng.randrange(cur); j = rng.choice([i, rng.randrange(cur), rng.randrange(cur)])
+        c0 = mult.get(key(i, j), 0)
+        k = rng.choice([0, 1, 1, 2, 3, max(c0 - 1, 0), c0, c0 + 1])        # multiplicity arguments around the current value
+        f = 1 if rng.random() < force_p else 0
+        r = rng.random()
+        if r < reject_p:
+            big = rng.choice([cur, cur + 1, 4294967295]); a, b = ((big, j) if rng.random() < 0.5 else (i, big))
+            ops.append(rng.choice(['A %d %d %d' % (a, b, f), 'MA %d %d %d %d' % (a, b, k, f), 'R %d %d' % (a, b), 'MR %d %d %d' % (a, b, k),
+                                   'MS %d %d %d' % (a, b, k), 'V %d' % big, 'RZ %d' % max(cur - 1, 0) if cur > 0 else 'V %d' % big]))
+            continue
+        r = rng.random()
+        if r < 0.12: ops.append('A %d %d %d' % (i, j, f)); mult[key(i, j)] = c0 + 1
+        elif r < 0.34:
+            ops.append('MA %d %d %d %d' % (i, j, k, f))
+            if k: mult[key(i, j)] = c0 + k
+        elif r < 0.38 and not und:
+            ops.append(rng.choice(['AR %d %d %d' % (i, j, f), 'MAR %d %d %d %d' % (i, j, max(k, 1), f)]))
+            mult[key(i, j)] = mult.get(key(i, j), 0) + 1; mult[key(j, i)] = mult.get(key(j, i), 0) + 1
+        elif r < 0.46:
+            ops.append('R %d %d' % (i, j))
+            if c0 > 1: mult[key(i, j)] = c0 - 1
+            else: mult.pop(key(i, j), None)
+        elif r < 0.60:
+            ops.append('MR %d %d %d' % (i, j, k))
+            if c0 > k: mult[key(i, j)] = c0 - k
+            else: mult.pop(key(i, j), None)
+        elif r < 0.76:
+            ops.append('MS %d %d %d' % (i, j, k))
+            if k: mult[key(i, j)] = k
+            else: mult.pop(key(i, j), None)
+        elif r < 0.83: ops.append('V %d' % i); mult = {e: v for e, v in mult.items() if i not in e}
+        elif r < 0.87: ops.append('SL'); mult = {e: v for e, v in mult.items() if e[0] != e[1]}
+        elif r < 0.91: ops.append('CL'); mult = {}
+        elif r < 0.96: cur += rng.randint(0, 2); ops.append('RZ %d' % cur)
+        elif dd_p: ops.append('DD')
+        else: ops.append('A %d %d %d' % (i, j, f)); mult[key(i, j)] = c0 + 1
+    return '%s mult %d : %s' % (cls, n, ' ; '.join(ops))
+
+
+def weighted_history(rng, cls, maxops=30, force_p=0.0, reject_p=0.0, dd_p=0.0, sizes=(0, 1, 1, 2, 3, 3, 4, 5)):
+    und = cls == 'UW'
+    n = rng.choice(sizes); cur = n
+    edges = set()
+    key = (lambda i, j: (min(i, j), max(i, j))) if und else (lambda i, j: (i, j))
+    ops = []
+    for _ in range(rng.randint(0, maxops)):
+        if cur == 0:
+            c = rng.choice(['CL', 'SL', 'RZ', 'RZ', 'DD' if dd_p else 'CL', 'BAD' if reject_p > 0 else 'RZ'])
+            if c == 'RZ': cur += rng.randint(0, 2); ops.append('RZ %d' % cur)
+            elif c == 'BAD': ops.append(rng.choice(['WA 0 0 4 0', 'R 0 0', 'V 0', 'WS 0 1 2']))
+            else: ops.append(c)
+            continue
+        if edges and rng.random() < 0.5:
+            i, j = rng.choice(sorted(edges))
+            if rng.random() < 0.5: i, j = j, i
+        else:
+            i = rng.randrange(cur); j = rng.choice([i, rng.randrange(cur), rng.randrange(cur)])
+        w = rng.choice([-9, -4, -1, 0, 0, 1, 2, 3, 4, 6, 10, 20])          # units of 1/4: negative, zero, positive, non-integers
+        f = 1 if rng.random() < force_p else 0
+        r = rng.random()
+        if r < reject_p:
+            big = rng.choice([cur, cur + 1, 4294967295]); a, b = ((big, j) if rng.random() < 0.5 else (i, big))
+            ops.append(rng.choice(['WA %d %d %d %d' % (a, b, w, f), 'R %d %d' % (a, b), 'WS %d %d %d' % (a, b, w), 'V %d' % big, 'RZ %d' % max(cur - 1, 0) if cur > 0 else 'V %d' % big]))
+            continue
+        r = rng.random()
+        if r < 0.32: ops.append('WA %d %d %d %d' % (i, j, w, f)); edges.add(key(i, j))
+        elif r < 0.55: ops.append('WS %d %d %d' % (i, j, w)); edges.add(key(i, j))
+        elif r < 0.72: ops.append('R %d %d' % (i, j)); edges.discard(key(i, j))
+        elif r < 0.81: ops.append('V %d' % i); edges = {e for e in edges if i not in e}
+        elif r < 0.86: ops.append('SL'); edges = {e for e in edges if e[0] != e[1]}
+        elif r < 0.90: ops.append('CL'); edges = set()
+        elif r < 0.96: cur += rng.randint(0, 2); ops.append('RZ %d' % cur)
+        elif dd_p: ops.append('DD')
+        else: ops.append('WA %d %d %d %d' % (i, j, w, f)); edges.add(key(i, j))
+    return '%s dbl %d : %s' % (cls, n, ' ; '.join(ops))
+
+
+def coq_mop(op):
+    t = op.split(); k = t[0]; z = lambda s: '(%s)%%Z' % s
+    if k == 'A': return 'MAdd %s %s %s' % (t[1], t[2], coq_bool(t[3]))
+    if k == 'AR': return 'MAddRecip %s %s %s' % (t[1], t[2], coq_bool(t[3]))
+    if k == 'MA': return 'MAddMulti %s %s %s %s' % (t[1], t[2], z(t[3]), coq_bool(t[4]))
+    if k == 'MAR': return 'MAddRecipMulti %s %s %s %s' % (t[1], t[2], z(t[3]), coq_bool(t[4]))
+    if k == 'R': return 'MRemove %s %s' % (t[1], t[2])
+    if k == 'MR': return 'MRemoveMulti %s %s %s' % (t[1], t[2], z(t[3]))
+    if k == 'MS': return 'MSet %s %s %s' % (t[1], t[2], z(t[3]))
+    return {'SL': 'MSelfLoops', 'CL': 'MClear', 'DD': 'MRemoveDuplicates'}.get(k) or ('MRemoveVertex %s' % t[1] if k == 'V' else 'MResize %s' % t[1])
+
+def coq_wop(op):
+    t = op.split(); k = t[0]; z = lambda s: '(%s)%%Z' % s
+    if k == 'WA': return 'WAdd %s %s %s %s' % (t[1], t[2], z(t[3]), coq_bool(t[4]))
+    if k == 'R': return 'WRemove %s %s' % (t[1], t[2])
+    if k == 'WS': return 'WSet %s %s %s' % (t[1], t[2], z(t[3]))
+    return {'SL': 'WSelfLoops', 'CL': 'WClear', 'DD': 'WRemoveDuplicates'}.get(k) or ('WRemoveVertex %s' % t[1] if k == 'V' else 'WResize %s' % t[1])
+
+def coq_term_mw(case):
+    head, body = case.split(':', 1)
+    cls, lk, n = head.split()
+    ops = [o.strip() for o in body.split(';') if o.strip()]
+    if any(tok.isdigit() and int(tok) > 5000 for o in ops for tok in o.split()): return None
+    if cls == 'DM': return 'dm_trace_z repaired %s [%s]' % (n, '; '.join(coq_mop(o) for o in ops))
+    if cls == 'UM': return 'um_trace_z repaired true %s [%s]' % (n, '; '.join(coq_mop(o) for o in ops))
+    if cls == 'DW': return 'dw_trace_z repaired %s [%s]' % (n, '; '.join(coq_wop(o) for o in ops))
+    if cls == 'UW': return 'uw_trace_z repaired true %s [%s]' % (n, '; '.join(coq_wop(o) for o in ops))
     return None
